@@ -189,6 +189,27 @@ def translate(repo):
         cfg['scalar_key_uses_label'] = True
     else:
         raise TranslateError('_Indexer.__getitem__: unrecognised scalar-key branch')
+    # 6. the id-keyed filters the model represents by select_ids / cfilter / cextract: exact bodies
+    exact = [
+        (A, src_a, 'fem_attribute.py', 'filter_with_ids',
+         'return FEMAttribute(self.name, ids, self._data_frame.loc[ids].values, silent=True, '
+         'time_series=self.time_series)\n'),
+        (S, src_s, 'fem_attributes.py', 'filter_with_ids',
+         'return FEMAttributes({key: value.filter_with_ids(ids) for key, value in self.items()}, '
+         'is_elemental=self.is_elemental)\n'),
+        (S, src_s, 'fem_attributes.py', 'extract_dict',
+         'return {k: v.loc[ids].values for k, v in self.items()}\n'),
+    ]
+    for cls, src, fname, fn, expected in exact:
+        fns = _find_funcs(cls, fn)
+        if len(fns) != 1:
+            raise TranslateError(f'{fname}: {fn} not found exactly once')
+        consumed[f'{fname}:{cls.name}.{fn}'] = _region(src, fns[0])
+        body = [s for s in fns[0].body if not (isinstance(s, ast.Expr) and isinstance(
+            getattr(s, 'value', None), ast.Constant) and isinstance(s.value.value, str))]
+        if [ast.dump(s) for s in body] != _d(expected):
+            raise TranslateError(f'{fname}: {cls.name}.{fn}: body is not the id-keyed selection the '
+                                 'model represents')
     # the list-key branch and the construction of the slice are part of the
     # hand model; their text is hashed so that an edit is visible in the evidence
     return cfg, consumed
